@@ -460,13 +460,21 @@ double cmb_random_std_gamma(const double shape)
 {
     cmb_assert_release(shape > 0.0);
 
+    /* Marsaglia & Tsang need shape >= 1, otherwise boost and scale back */
+    double a = shape;
+    double boost = 1.0;
+    if (a < 1.0) {
+        boost = pow(cmb_random(), 1.0 / a);
+        a += 1.0;
+    }
+
     static CMB_THREAD_LOCAL double a_prev = 0.0;
     static CMB_THREAD_LOCAL double c = 0.0;
     static CMB_THREAD_LOCAL double d = 0.0;
-    if (shape != a_prev) {
-        d = shape - 1.0 / 3.0;
+    if (a != a_prev) {
+        d = a - 1.0 / 3.0;
         c = 1.0 / sqrt(9.0 * d);
-        a_prev = shape;
+        a_prev = a;
     }
 
     double x, v;
@@ -480,7 +488,7 @@ double cmb_random_std_gamma(const double shape)
         double u = cmb_random();
         if ((u < 1.0 - 0.331 * (x * x) * (x * x))
             || (log(u) < (0.5 * x * x) + (d * (1.0 - w + log(w))))) {
-            const double ret = d * w;
+            const double ret = boost * (d * w);
             cmb_assert_debug(ret >= 0.0);
             return ret;
         }
